@@ -50,7 +50,7 @@ impl Property for C07 {
     type Case = Case;
     const ID: &'static str = "C07";
     fn rule() -> &'static str {
-        "2D: closed reference curves with enough features to fix 3 degrees of freedom (star polygons, L-shapes, rectangles with a notch; size 1e-1..1e2; any pose) with 12-200 sample points exactly on the curve; 3D: boxes, skewed prisms and octahedra in any pose with 200-800 points from the harness's own area-weighted sampler. Recovery family: displacement about the shape centroid of up to 3 deg / 2 % of the size (2D, at least 40 points, a sample set whose normal matrix is well conditioned, at most a tenth of the samples matched to a wrong edge at the start), 5 deg / 3 % (3D), starting from the identity or a second small perturbation, both distance modes: the returned transform composed with the displacement must be the identity to 1e-4 (angle in radians, shift relative to the size). Honesty family: displacements up to 40 deg / 30 %: whenever the solver reports success the i-th residual must equal the mode-specific distance recomputed by exhaustive scan from the returned transform alone, the average must match, and the sum of squares must not exceed its value at the start. Already-aligned family (4 %): the samples are the reference's own vertices, zero displacement, identity start - every residual is exactly zero at the start and the identity must come back. Non-trivial: rotation > 1 deg and translation > 1 % (recovery); success with a final sum of squares > 1e-6 size^2 (honesty). Distinct = distinct canonical JSON."
+        "2D: closed reference curves with enough features to fix 3 degrees of freedom (star polygons, L-shapes, rectangles with a notch; size 1e-1..1e2; any pose) with 12-200 sample points exactly on the curve; 3D: boxes, skewed prisms and octahedra in any pose with 200-800 points from the harness's own area-weighted sampler. Recovery family: displacement about the shape centroid of up to 3 deg / 2 % of the size (2D, at least 40 points, a sample set whose normal matrix is well conditioned, at most a tenth of the samples matched to a wrong edge or to a corner at the start), 5 deg / 3 % (3D), starting from the identity or a second small perturbation, both distance modes: the returned transform composed with the displacement must be the identity to 1e-4 (angle in radians, shift relative to the size). Honesty family: displacements up to 40 deg / 30 %: whenever the solver reports success the i-th residual must equal the mode-specific distance recomputed by exhaustive scan from the returned transform alone, the average must match, and the sum of squares must not exceed its value at the start. Already-aligned family (4 %): the samples are the reference's own vertices, zero displacement, identity start - every residual is exactly zero at the start and the identity must come back. Non-trivial: rotation > 1 deg and translation > 1 % (recovery); success with a final sum of squares > 1e-6 size^2 (honesty). Distinct = distinct canonical JSON."
     }
     fn cases(t: Tier) -> u32 {
         t.pick(80_000, 1_000_000)
@@ -137,7 +137,12 @@ fn align2(shape: &Shape2, scale: f64, pose: &Iso2D, fracs: &[f64], angle_deg: f6
             ata += row * row.transpose();
         }
         let ev = ata.symmetric_eigenvalues();
-        if ev.min() < 2e-3 * samples.len() as f64 {
+        if std::env::var("VERIF_DEBUG").is_ok() {
+            eprintln!("C07 align2: normal-matrix eigenvalues / n = {:?}", ev / samples.len() as f64);
+        }
+        // uniformly drawn fractions give 0.008 at the very least (median 0.036); sets that byte-level mutation collapses
+        // to a handful of distinct positions sit below that and do stall in local minima
+        if ev.min() < 8e-3 * samples.len() as f64 {
             return Verdict::Discard("sample set does not fix all degrees of freedom");
         }
     }
@@ -160,8 +165,11 @@ fn align2(shape: &Shape2, scale: f64, pose: &Iso2D, fracs: &[f64], angle_deg: f6
         .filter(|(s0, p)| {
             let m = initial * *p;
             let (_, _, e_true, _) = model.closest(s0);
-            let (d_now, _, e_now, _) = model.closest(&m);
-            e_now != e_true && (crate::oracle::closest_on_segment(&model.v[e_true], &model.v[e_true + 1], &m).0 - m).norm() > d_now + 1e-9 * size
+            let (d_now, _, e_now, t_now) = model.closest(&m);
+            // ... or whose closest point is a corner of the reference: there the residual (the projection on the normal
+            // of one of the two edges) is ambiguous and flips with the pose, just like a wrong edge
+            let at_corner = t_now <= 1e-9 || t_now >= 1.0 - 1e-9;
+            at_corner || (e_now != e_true && (crate::oracle::closest_on_segment(&model.v[e_true], &model.v[e_true + 1], &m).0 - m).norm() > d_now + 1e-9 * size)
         })
         .count();
     if std::env::var("VERIF_DEBUG").is_ok() {
@@ -170,7 +178,7 @@ fn align2(shape: &Shape2, scale: f64, pose: &Iso2D, fracs: &[f64], angle_deg: f6
     // The basin of the recovery clause is stated in terms of what makes point-to-curve alignment locally convex: at the
     // start at most one sample in ten is matched to a wrong edge.  (Local minima with a fifth of the samples on wrong
     // edges are genuine properties of the objective, not defects of the solver.)
-    if !honesty && 10 * misassigned > samples.len() {
+    if !honesty && !at_solution && 10 * misassigned > samples.len() {
         return Verdict::Discard("more than a tenth of the samples start on a wrong edge");
     }
     cx.label_if(!honesty && misassigned > 0, "recover2_some_wrong_edges");
@@ -284,6 +292,9 @@ fn align3(kind: &MeshKind, pose: &Iso3D, samples: &[(f64, f64, f64)], axis: &P3,
             ata += row * row.transpose();
         }
         let ev = ata.symmetric_eigenvalues();
+        if std::env::var("VERIF_DEBUG").is_ok() {
+            eprintln!("C07 align3: normal-matrix min eigenvalue / n = {:e}", ev.min() / pts.len() as f64);
+        }
         if ev.min() < 2e-3 * pts.len() as f64 {
             return Verdict::Discard("sample set does not fix all degrees of freedom");
         }
